@@ -200,6 +200,9 @@ def run_shards(prop, cfg, tier, seed, binpath, replay=None, extra_env=None, sub=
             results.append(res)
         if rc == "watchdog":
             problems.append(("watchdog", i, "shard %d exceeded the %ds watchdog" % (i, cfg["watchdog_s"][tier])))
+        elif isinstance(rc, int) and rc in (-9, -15):
+            # killed from outside (out-of-memory killer, operator): says nothing about the property
+            problems.append(("watchdog", i, "shard %d was killed by signal %d (out of memory on the machine?)" % (i, -rc)))
         elif rc != 0 or res is None or not res.get("done"):
             tail = ""
             try:
